@@ -184,14 +184,18 @@ func execC14(x *Ctx, sc *wire.Scenario) *wire.Result {
 	}
 	pre, suf := string(rs[:ws]), string(rs[xx.C:])
 	typed := string(rs[ws:xx.C])
-	ascii := "ascii-prefix"
+	how := "menu"
+	if len(sc.Env.Comp.Cands) == 1 {
+		how = "unique-match"
+	}
+	ascii := how + ":ascii-prefix"
 	for _, r := range typed {
 		if r > 0x7f {
-			ascii = "non-ascii-prefix"
+			ascii = how + ":non-ascii-prefix"
 		}
 	}
 	if typed == "" {
-		ascii = "empty-prefix"
+		ascii = how + ":empty-prefix"
 	}
 	cands := map[string]bool{}
 	for _, c := range sc.Env.Comp.Cands {
